@@ -168,3 +168,268 @@ def invalid_config(draw, case):
             nd['uses'].insert(draw(st.integers(0, len(nd['uses']))), new_use)
     case['mutation'] = kind
     return case
+
+
+# ---- computation-preserving and computation-changing rewritings (C02 / C03) ----------------------------
+
+def _rev_keys(v):
+    if isinstance(v, dict):
+        return {k: _rev_keys(v[k]) for k in reversed(list(v))}
+    if isinstance(v, list):
+        return [_rev_keys(x) for x in v]
+    return v
+
+
+def _nodes_with_values(case):
+    return [(fi, pn, nd) for fi, pn, nd in _all_nodes(case) if nd['module'] is not None and nd['values']]
+
+
+PRESERVING = ['rename_files', 'wrap_ns', 'perm_meta', 'perm_tasks', 'perm_uses', 'perm_keys', 'fmt_swap', 'add_ignored',
+              'add_default', 'to_context', 'gv_change', 'add_absent_optional', 'wild_swap', 'multi_config']
+CHANGING = ['chg_value', 'chg_value', 'chg_value_deep', 'chg_obj_arg', 'retag', 'rewire', 'drop_optional', 'chg_context',
+            'chg_default_param']
+
+
+@st.composite
+def rewrite(draw, case, kinds, n_max=3):
+    """Apply 1..n_max rewritings drawn from `kinds`.  -> (new case, namespace prefix for task names, labels)."""
+    from tcv import gen, values
+    case = copy.deepcopy(case)
+    prefix = None
+    labels = []
+    for _ in range(draw(st.integers(1, n_max))):
+        kind = draw(st.sampled_from(kinds))
+        prog = case['program']
+        tasks = _concrete(case)
+        if kind == 'rename_files':
+            for k, f in enumerate(case['files']):
+                if draw(st.booleans()):
+                    f['name'] = draw(st.sampled_from(['moved/', 'a/b/', ''])) + f'r{k}_' + f['name'].split('/')[-1][::-1]
+        elif kind == 'wrap_ns':
+            for _d in range(draw(st.integers(1, 3))):
+                ns = draw(st.sampled_from(['w', 'xw', 'n', 'train']))
+                case['files'].append({'name': f'wrap{len(case["files"])}', 'fmt': draw(st.sampled_from(['json', 'yaml'])),
+                                      'node': {'module': None, 'tasks_how': 'none', 'values': {}, 'changed': [],
+                                               'uses': [{'file': case['root'], 'part': case.get('root_part'), 'mod': None,
+                                                         'variant': None, 'ns': ns}]}})
+                case['root'] = len(case['files']) - 1
+                case.pop('root_part', None)
+                case.pop('root_part_style', None)
+                prefix = ns if prefix is None else f'{ns}::{prefix}'
+                # per-namespace context entries follow the pipeline they were written for
+                ctx = case.get('context')
+                if ctx:
+                    for layer in ctx['layers']:
+                        _wrap_layer(layer, ns)
+        elif kind == 'perm_meta':
+            mi, ti = draw(st.sampled_from(tasks))
+            prog['modules'][mi]['tasks'][ti]['params'].reverse()
+        elif kind == 'perm_tasks':
+            for fi, pn, nd in _all_nodes(case):
+                if nd['tasks_how'] == 'list':
+                    nd['tasks_reversed'] = not nd.get('tasks_reversed', False)
+        elif kind == 'perm_uses':
+            for fi, pn, nd in _all_nodes(case):
+                nd['uses'].reverse()
+        elif kind == 'perm_keys':
+            for f in case['files']:
+                f['key_order'] = 'reversed' if f.get('key_order') != 'reversed' else None
+            for fi, pn, nd in _all_nodes(case):
+                nd['values'] = _rev_keys(nd['values'])
+        elif kind == 'fmt_swap':
+            for f in case['files']:
+                if draw(st.booleans()):
+                    f['fmt'] = 'yaml' if f['fmt'] == 'json' else 'json'
+        elif kind == 'add_ignored':
+            mi, ti = draw(st.sampled_from(tasks))
+            t = prog['modules'][mi]['tasks'][ti]
+            if not any(p['name'] == 'ig' for p in t['params']):
+                t['params'].append({'name': 'ig', 'cfg': None, 'ignore': True, 'dpdv': False, 'dtype': None,
+                                    'default': {'v': 0}})
+                for fi, pn, nd in _all_nodes(case):
+                    if nd['module'] == mi and draw(st.booleans()):
+                        nd['values']['ig'] = draw(st.sampled_from([1, 'v', [1, 2], None]))
+        elif kind == 'add_default':
+            mi, ti = draw(st.sampled_from(tasks))
+            t = prog['modules'][mi]['tasks'][ti]
+            if not any(p['name'] == 'nd' for p in t['params']):
+                d = draw(st.sampled_from([None, 0, 'dflt', [1, 'a'], {'k': 1}]))
+                t['params'].append({'name': 'nd', 'cfg': None, 'ignore': False, 'dpdv': True, 'dtype': None,
+                                    'default': {'v': d}})
+                if draw(st.booleans()):
+                    for fi, pn, nd in _all_nodes(case):
+                        if nd['module'] == mi:
+                            nd['values']['nd'] = copy.deepcopy(d)
+        elif kind == 'to_context':
+            cands = [(fi, pn, nd, k) for fi, pn, nd in _nodes_with_values(case) for k in nd['values']]
+            if cands:
+                fi, pn, nd, k = draw(st.sampled_from(cands))
+                val = nd['values'][k]
+                ctx = case.get('context') or {'layers': [], 'as_list': True}
+                layer = {'form': draw(st.sampled_from(['dict', 'file_json', 'file_yaml'])), 'global': {}, 'for_ns': {}}
+                nss = sorted(n for n in gen.namespaces_of(case) if n)
+                where = draw(st.sampled_from(['global'] + nss))
+                if where == 'global':
+                    layer['global'][k] = copy.deepcopy(val)
+                else:
+                    layer['for_ns'][where] = {k: copy.deepcopy(val)}
+                if draw(st.booleans()):
+                    del nd['values'][k]
+                ctx['layers'].append(layer)
+                ctx['as_list'] = True
+                case['context'] = ctx
+        elif kind == 'gv_change':
+            if case.get('global_vars'):
+                case['global_vars']['DATA'] = draw(st.sampled_from(['/other', 'q', '/d1/x']))
+        elif kind == 'add_absent_optional':
+            mi, ti = draw(st.sampled_from(tasks))
+            t = prog['modules'][mi]['tasks'][ti]
+            if t['style'] != 'all' and not any(i.get('form') == 'absent' for i in t['inputs']):
+                t['inputs'].append({'form': 'absent', 'text': 'zz_never', 'optional': True, 'via_param': True,
+                                    'default': draw(st.sampled_from([None, 3]))})
+        elif kind == 'wild_swap':
+            for fi, pn, nd in _all_nodes(case):
+                if nd['tasks_how'] in ('list', 'wild') and draw(st.booleans()):
+                    nd['tasks_how'] = 'wild' if nd['tasks_how'] == 'list' else 'list'
+        elif kind == 'multi_config':
+            if not any(f.get('parts') for f in case['files']):
+                case = draw(gen.with_multi_config(case))
+        # ---- computation-changing ----
+        elif kind in ('chg_value', 'chg_value_deep', 'retag'):
+            cands = [(fi, pn, nd, k) for fi, pn, nd in _nodes_with_values(case) for k in nd['values']
+                     if not (isinstance(nd['values'][k], dict) and '__object__' in nd['values'][k])]
+            if cands:
+                fi, pn, nd, k = draw(st.sampled_from(cands))
+                old = nd['values'][k]
+                if kind == 'retag':
+                    nd['values'][k] = draw(st.sampled_from(values.LOOKALIKES))
+                elif kind == 'chg_value_deep':
+                    nd['values'][k] = _mutate_deep(draw, old)
+                else:
+                    nd['values'][k] = draw(gen._pv())
+                case['changed_key'] = k
+        elif kind == 'chg_obj_arg':
+            cands = [(fi, pn, nd, k) for fi, pn, nd in _nodes_with_values(case) for k in nd['values']
+                     if isinstance(nd['values'][k], dict) and '__object__' in nd['values'][k]]
+            if cands:
+                fi, pn, nd, k = draw(st.sampled_from(cands))
+                o = nd['values'][k]
+                if o['__object__'] == 'Oa':
+                    o['args'] = [_mutate_deep(draw, o['args'][0])]
+                else:
+                    which = draw(st.sampled_from(['k', 'w', 'verbose']))
+                    if which == 'k':
+                        o['args'] = [_mutate_deep(draw, o['args'][0])]
+                    elif which == 'w':
+                        o['kwargs']['w'] = draw(st.sampled_from([5, 6, 7, 8]))
+                    else:
+                        o['kwargs']['verbose'] = not o['kwargs'].get('verbose', False)
+        elif kind == 'rewire':
+            cands = []
+            for (mi, ti) in tasks:
+                t = prog['modules'][mi]['tasks'][ti]
+                for ii, i in enumerate(t['inputs']):
+                    if i.get('form') in ('class', 'gname') and not i.get('rel'):
+                        alts = [(mi, x) for x in range(ti) if x != i['task'] or mi != i['mod']]
+                        alts = [a for a in alts if a in tasks and a[0] == i['mod']
+                                and not any(j.get('mod') == a[0] and j.get('task') == a[1] for j in t['inputs'])]
+                        if alts:
+                            cands.append((mi, ti, ii, alts))
+            if cands:
+                mi, ti, ii, alts = draw(st.sampled_from(cands))
+                a = draw(st.sampled_from(alts))
+                t = prog['modules'][mi]['tasks'][ti]
+                t['inputs'][ii] = dict(t['inputs'][ii], mod=a[0], task=a[1], form='gname')
+                if t['style'] == 'args':
+                    t['style'] = 'index'
+        elif kind == 'drop_optional':
+            cands = []
+            for (mi, ti) in tasks:
+                for i in prog['modules'][mi]['tasks'][ti]['inputs']:
+                    if i.get('optional') and i.get('form') in ('class', 'name', 'gname'):
+                        cands.append((i['mod'], i['task']))
+            from tcv.gen import required_targets
+            req = required_targets(prog)
+            cands = [c for c in cands if c not in req]
+            if cands:
+                tm, tt = draw(st.sampled_from(cands))
+                cls = prog['modules'][tm]['tasks'][tt]['cls']
+                for fi, pn, nd in _all_nodes(case):
+                    if nd['module'] == tm:
+                        nd['tasks_how'] = 'list+excl'
+                        nd['excluded'] = sorted(set(nd.get('excluded', [])) | {cls})
+        elif kind == 'chg_context':
+            ks = gen.keys_of(case)
+            if ks:
+                k = draw(st.sampled_from(sorted(ks)))
+                ctx = case.get('context') or {'layers': [], 'as_list': True}
+                nss = sorted(n for n in gen.namespaces_of(case) if n)
+                layer = {'form': 'dict', 'global': {}, 'for_ns': {}}
+                where = draw(st.sampled_from(['global'] + nss))
+                v = draw(gen.value_for(ks[k]))
+                if where == 'global':
+                    layer['global'][k] = v
+                else:
+                    layer['for_ns'][where] = {k: v}
+                ctx['layers'].append(layer)
+                ctx['as_list'] = True
+                case['context'] = ctx
+        elif kind == 'chg_default_param':
+            # a dont-persist-default parameter moves away from its default
+            cands = []
+            for (mi, ti) in tasks:
+                for p in prog['modules'][mi]['tasks'][ti]['params']:
+                    if 'default' in p and not p.get('ignore') and not p.get('object') and not p.get('dtype'):
+                        cands.append((mi, p))
+            if cands:
+                mi, p = draw(st.sampled_from(cands))
+                for fi, pn, nd in _all_nodes(case):
+                    if nd['module'] == mi:
+                        nd['values'][p.get('cfg') or p['name']] = _mutate_deep(draw, p['default']['v'])
+        labels.append(kind)
+    return case, prefix, labels
+
+
+def _wrap_layer(layer, ns):
+    layer['for_ns'] = {f'{ns}::{k}': v for k, v in layer['for_ns'].items()}
+    for sub in layer.get('nested', []):
+        if sub.get('ns'):
+            sub['ns'] = f'{ns}::{sub["ns"]}'
+        else:
+            _wrap_layer(sub['layer'], ns)
+
+
+def _mutate_deep(draw, v):
+    """A small mutation of a JSON-like value: replace / insert / delete a leaf at any depth, retag a scalar."""
+    from tcv import values
+    v = copy.deepcopy(v)
+    if isinstance(v, list):
+        op = draw(st.sampled_from(['elem', 'append', 'delete', 'wrap'] if v else ['append', 'wrap']))
+        if op == 'elem':
+            i = draw(st.integers(0, len(v) - 1))
+            v[i] = _mutate_deep(draw, v[i])
+        elif op == 'append':
+            v.append(draw(st.sampled_from(values.LOOKALIKES)))
+        elif op == 'delete':
+            del v[draw(st.integers(0, len(v) - 1))]
+        else:
+            v = [v]
+        return v
+    if isinstance(v, dict) and '__object__' not in v:
+        op = draw(st.sampled_from(['elem', 'add', 'delete'] if v else ['add']))
+        if op == 'elem':
+            k = draw(st.sampled_from(sorted(v)))
+            v[k] = _mutate_deep(draw, v[k])
+        elif op == 'add':
+            v[draw(st.sampled_from(['zk', 'a', '']))] = draw(st.sampled_from(values.LOOKALIKES))
+        else:
+            del v[draw(st.sampled_from(sorted(v)))]
+        return v
+    choices = [x for x in values.LOOKALIKES]
+    if isinstance(v, str):
+        choices += [v + 'x', v[:-1], v + ' ', [v]]
+    if isinstance(v, bool):
+        choices += [int(v), str(v)]
+    elif isinstance(v, int):
+        choices += [v + 1, float(v) if abs(v) < 2 ** 50 else v - 1, str(v), [v]]
+    return draw(st.sampled_from(choices))
